@@ -44,7 +44,7 @@ ASSUMPTIONS = [
 HISTORY_CHECK = True   # last runs of every chunk are re-observed alone in a fresh interpreter
 
 TIERS = {
-    "quick":    {"runs": 3600,   "chunk": 100,  "hash_seeds": [0], "max_steps": 10, "timeout": 900},
+    "quick":    {"runs": 3800,   "chunk": 100,  "hash_seeds": [0], "max_steps": 10, "timeout": 900},
     "thorough": {"history_check_cap": 200, "runs": 32000, "chunk": 400, "max_wall": 2400, "hash_seeds": [0, 11], "max_steps": 12, "timeout": 3400},
     "selftest": {"runs": 160,    "chunk": 20,   "hash_seeds": [0], "max_steps": 10, "timeout": 300},
 }
@@ -338,6 +338,7 @@ DICT_TARGETS = [
     ("SUMMARY:dictionary", "text", False), ("CATEGORIES:A,B", "text", False), ("TZNAME:SDT", "text", True),
     ("BEGIN:STANDARD", "component", True), ("BEGIN:DAYLIGHT", "component", True),
     ("RDATE;VALUE=PERIOD", "date", False), ("FREEBUSY;TZID", "date", False),
+    ("ATTENDEE;CN=Jane", "params", False), ("SUMMARY:dictionary", "params", False),
 ]
 
 
@@ -346,7 +347,7 @@ def dict_combos():
     pools = {"rrule": F.HOSTILE_RULES, "date": F.HOSTILE_DATES, "offset": F.HOSTILE_OFFSETS,
              "tzid-prop": F.HOSTILE_TZIDS, "tzid-param": F.HOSTILE_TZIDS, "duration": F.HOSTILE_DURATIONS,
              "number": F.HOSTILE_NUMBERS, "uri": F.HOSTILE_URIS, "text": F.HOSTILE_TEXTS,
-             "component": F.HOSTILE_COMPONENTS}
+             "component": F.HOSTILE_COMPONENTS, "params": F.HOSTILE_PARAMS}
     lines = F._lines(DICT_DOC.encode("utf-8"))
     out = []
     for prefix, what, both in DICT_TARGETS:
